@@ -265,6 +265,9 @@ type loopEvent struct {
 	Out     []any  `json:"out,omitempty"`
 	Busy    bool   `json:"busy"`
 	Retries int    `json:"retries,omitempty"`
+	// Complete: the callback was OnStepComplete (the step is complete: onStageComplete gets newStage == nil and marks
+	// the stages the step did not go through as unresolvable); false/absent: OnStageChange.
+	Complete bool `json:"complete,omitempty"`
 }
 
 // deliver performs one callback on the real handler.
@@ -518,6 +521,7 @@ func runLoopCase(r *rng, caseID string, o genOpts, fanIn int) map[string]any {
 		switch a.kind {
 		case "change", "complete":
 			ev.E = "change"
+			ev.Complete = a.kind == "complete"
 			if a.prev != "" {
 				p := a.prev
 				ev.Prev = &p
@@ -572,6 +576,18 @@ func runLoopCase(r *rng, caseID string, o genOpts, fanIn int) map[string]any {
 			// let the detector's retry chain run while nothing else happens (a legal, slow schedule)
 			time.Sleep(45 * time.Millisecond)
 			bs := tickBatches()
+			if len(bs) == ticksSeen {
+				// no poll yet: either no retry chain was started or (loaded machine) its first 10 ms timer is late
+				time.Sleep(40 * time.Millisecond)
+				bs = tickBatches()
+			}
+			// Nothing else is delivered during this window, so a chain that has begun polls three times (then the
+			// detector reports). Fewer polls, the last of them finding nothing running, means its timers are late:
+			// wait for the chain to finish (up to 2 s) so that its ticks are recorded at this position.
+			for w := 0; w < 400 && len(bs) > ticksSeen && len(bs)-ticksSeen < 3 && !busyOf(bs[len(bs)-1]) && len(h.closing) == 0; w++ {
+				time.Sleep(5 * time.Millisecond)
+				bs = tickBatches()
+			}
 			for k := ticksSeen; k < len(bs); k++ {
 				events = append(events, loopEvent{E: "tick", Retries: 2 - (k - ticksSeen), Busy: busyOf(bs[k])})
 			}
@@ -583,6 +599,14 @@ func runLoopCase(r *rng, caseID string, o genOpts, fanIn int) map[string]any {
 		case res := <-resCh:
 			finalRes = &res
 		case <-time.After(3 * time.Second):
+		}
+	}
+	if slow && !stuck && panicked == "" {
+		// slow schedule: a detector poll that was not recorded in one of the windows above happened at a position of the
+		// history that is not known (late timers on a loaded machine): the case is not compared
+		time.Sleep(2 * time.Millisecond)
+		if len(tickBatches()) > ticksSeen {
+			ambiguous = true
 		}
 	}
 	if !slow && !stuck && panicked == "" {
